@@ -494,3 +494,13 @@ add('C10', 'ngram-reader-keeps-CR', OIOF, NG_OPEN, "        with open(full_file_
 add('C07', 'ngram-reader-keeps-CR', OIOF, NG_OPEN, "        with open(full_file_path, 'r', encoding= grammar['alphabet_encoding'], errors= 'strict', newline='\\n') as file:\n            for line in file:\n                line = line.rstrip('\\n').split('\\t')", 'fire', 'C07.R5')
 add('C07', 'ngram-reader-universal-newlines *', OIOF, NG_OPEN, "        with open(full_file_path, 'r', encoding= grammar['alphabet_encoding'], errors= 'strict') as file:\n            for line in file:\n                line = line.rstrip('\\n').split('\\t')", 'silent')
 add('C18', 'ngram-reader-strips-blanks', OIOF, NG_OPEN, NG_OPEN.replace("rstrip('\\n\\r')", "rstrip()"), 'fire', 'C18.R12')
+PRINT_G = "        if not self.debug:\n            try:\n                print(guess)"
+add('C04', 'print-guess-trims', PGF, PRINT_G, "        if not self.debug:\n            guess = guess.rstrip()\n            try:\n                print(guess)", 'fire', 'C04.R12')
+add('C09', 'print-guess-trims', PGF, PRINT_G, "        if not self.debug:\n            guess = guess.rstrip()\n            try:\n                print(guess)", 'fire', 'C09.R5')
+CTXS = 'lib_trainer/detection_rules/context_sensitive_detection.py'
+HASH1 = "            if start_index < len(working_string) - 3:\n                if working_string[start_index + 3].isdigit():\n                    # False positive\n                    continue"
+add('C05', 'lookahead-guarded-by-non-emptiness', CTXS, HASH1, "            remainder = working_string[start_index + len(replacement):]\n            if remainder and remainder[1].isdigit():\n                # False positive\n                continue", 'fire', 'C05.R16')
+add('C05', 'lookahead-guarded-by-length *', CTXS, HASH1, "            remainder = working_string[start_index + len(replacement):]\n            if len(remainder) > 1 and remainder[1].isdigit():\n                # False positive\n                continue", 'silent')
+add('C11', 'optimizer-cache-as-mutable-default', OPTF, [("    def __init__(self, max_length):", "    def __init__(self, max_length, tmto_lookup = []):"), (OPT_INIT, "        self.tmto_lookup = tmto_lookup\n        for i in range(len(self.tmto_lookup), self.max_length + 1):")], None, 'fire', 'C11.R13')
+add('C10', 'optimizer-cache-as-mutable-default', OPTF, [("    def __init__(self, max_length):", "    def __init__(self, max_length, tmto_lookup = []):"), (OPT_INIT, "        self.tmto_lookup = tmto_lookup\n        for i in range(len(self.tmto_lookup), self.max_length + 1):")], None, 'fire', 'C10.R16')
+add('C10', 'optimizer-none-default *', OPTF, [("    def __init__(self, max_length):", "    def __init__(self, max_length, tmto_lookup = None):"), (OPT_INIT, "        self.tmto_lookup = [] if tmto_lookup is None else tmto_lookup\n        for i in range(len(self.tmto_lookup), self.max_length + 1):")], None, 'silent')
